@@ -400,6 +400,17 @@ def replay(path):
     import props
     obj = json.load(open(path if os.path.isabs(path) else os.path.join(VERIF, path)))
     print(json.dumps({k: (v if not isinstance(v, str) else v[:400]) for k, v in obj.items()}, indent=1))
+    if obj.get("kind") == "hang":
+        # the conversion is started in a child process and given the same time as in the run that reported it
+        code = ("import sys; sys.path.insert(0, %r); from coco.b09.compiler import convert; import json; "
+                "convert(json.load(sys.stdin))" % common.REPO)
+        try:
+            subprocess.run([common.PY, "-c", code], input=json.dumps(obj["input"]), capture_output=True, text=True, timeout=60)
+            print("replay verdict on the current tree: the conversion returns (property holds on this input)")
+            return 0
+        except subprocess.TimeoutExpired:
+            print("replay verdict on the current tree: convert(<input>) has not returned after 60 s")
+            return 1
     if obj.get("type") != "failing-input":
         return 0
     pid = obj["property"]
